@@ -161,6 +161,11 @@ func runC06(c *fw.Case) {
 			} else {
 				seq++
 				v := fmt.Sprintf("g%d-%s", seq, strings.Repeat("v", vlen+r.Intn(vlen)))
+				if c.Idx%100 == 13 && puts == 0 {
+					// every table of this lineage carries one value of a mebibyte or more (beyond every pooled buffer size)
+					v = fmt.Sprintf("g%d-", seq) + string(gen.Bytes(r, gen.Pick(r, 1<<20-40, 1<<20, 1<<20+1, 3<<19, 2<<20)))
+					c.Obs("values_of_a_mebibyte_or_more_sent_through_compactions", 1)
+				}
 				if err := db.Put(k, v); err != nil {
 					c.Violate("compaction/put-error", "%v", err)
 					return false
